@@ -568,4 +568,16 @@ theorem putUvarint_eq (x : Nat) (hx : x < 18446744073709551616) (buf : Bytes) (h
   unfold GoSrc.Wire.putUvarint
   simpa using this
 
+theorem appendString_eq (b v : Bytes) (hv : v.length < 9223372036854775808) :
+    GoSrc.Wire.appendString b v = .ok (b ++ lenPrefixed v) := by
+  unfold GoSrc.Wire.appendString lenPrefixed
+  rw [toU_len v hv, appendVarint_eq _ _ (by omega)]
+  simp
+
+theorem consumeString_eq (b : Bytes) (hb : b.length < 9223372036854775808) :
+    GoSrc.Wire.consumeString b = .ok (Wire.consumeBytes b) := by
+  unfold GoSrc.Wire.consumeString
+  rw [consumeBytes_eq b hb]
+  rfl
+
 end Pico.GoTie.W
